@@ -35,6 +35,13 @@ ASSUMPTIONS = ['tensors are abstracted to version counters in the model; that th
                'convergence to the exact ground state is test-level (two-site, mixer, untruncated, gap > 1e-3)']
 
 
+ANCHOR_COVERAGE_NOTE = ('coverage round 2026-09-26 (quick case set, seed 0, in-process, compiled kernels; line coverage of the anchored '
+                        'mechanisms): dmrg.py 72% -> 88%; mps_common.py Sweep/EffectiveH/Mixers (lines 60-2203) 74% -> 85%; '
+                        'mpo.py MPOEnvironment + MPOTransferMatrix 59% -> 85%; vumps.py 94% (unchanged). Whole files incl. '
+                        'branches: dmrg 69 -> 87%, mps_common 63 -> 73%, vumps 91%, mpo 44 -> 45% (the MPO class itself belongs to '
+                        'C10/C11). See notes/C13.md, section Coverage round.')
+
+
 def gen_cases(rng, n, quick):
     cases = []
     for i in range(n):
@@ -111,8 +118,11 @@ def check_dmrg(case, out, res, fail):
         # reported energy = energy before the last truncation; the state differs by at most the reported E_trunc
         # the energy change of a truncation is bounded by the discarded weight: |dE| <= 2 ||H|| sqrt(2 eps); an
         # "E_trunc" larger than that is not a truncation effect and does not excuse a mismatch
+        # (a mixer that was active in the measured sweep perturbs the state on purpose: its contribution to
+        # `E_trunc` is not a truncation effect and has no discarded weight, so the bound is only claimed without it)
         bound = 4 * scale * (2 * out['last_trunc_err']) ** 0.5
-        if not out.get('cleanup') and out['last_E_trunc'] > bound + 1e-8 * scale:
+        if (not out.get('cleanup') and not out.get('mixer_amp_last_sweep')
+                and out['last_E_trunc'] > bound + 1e-8 * scale):
             fail('dmrg.E_trunc-exceeds-what-the-discarded-weight-allows',
                  f'last max_E_trunc={out["last_E_trunc"]:.3e}, last max_trunc_err={out["last_trunc_err"]:.3e}, bound={bound:.3e}')
         tol = tolE + 1.5 * min(out['max_E_trunc'], max(bound, 0.0) + 1e-9 * scale) + 10 * out['mixer_amp'] * scale
@@ -161,6 +171,7 @@ def check_infinite(case, out, fail):
 
 def run_cases(ctx, cases, use_model=True, procs=8):
     res = core.Result()
+    res.extra['anchor_coverage_note'] = ANCHOR_COVERAGE_NOTE
     if procs > 1:
         with mp.Pool(procs) as pool:
             outs = pool.map(_eval, cases, chunksize=1)
